@@ -72,7 +72,7 @@ def ev(n, env):
             return _wrap(-v, ti) if not isinstance(v, float) else -v
         if op == "~":
             return _wrap(~v, ti)
-        if op == "+":
+        if op in ("+", "__extension__"):
             return v
         return None
     if k == "BinaryOperator":
